@@ -190,6 +190,42 @@ func c04(c *Ctx) {
 			}
 		}
 		c.R.Check(okCred, load.FuncName(fc)+": req.Credentials", c.pos(run.Pos()), "credentials are keyed by the step's own credential names", "credentials are not taken from the step's own credentials list")
+		// own credentials only: the map a step's credentials are stored in is
+		// created in this iteration (nothing carried over from earlier steps),
+		// and so is the request that carries it.
+		fresh, nmu := true, 0
+		isReqCreds := func(addr ssa.Value) bool {
+			return isFieldSel(addr, "v1.RunFunctionRequest", "Credentials") && flow.Root(addr) == reqAlloc
+		}
+		for _, b := range fc.Blocks {
+			for _, in := range b.Instrs {
+				switch x := in.(type) {
+				case *ssa.MapUpdate:
+					if !strings.HasSuffix(x.Map.Type().String(), "v1.Credentials") {
+						continue
+					}
+					nmu++
+					// the map written is this request's Credentials field (or the fresh map itself)
+					if ld, ok := x.Map.(*ssa.UnOp); ok && ld.Op == token.MUL && isReqCreds(ld.X) {
+						continue
+					}
+					if mm, ok := x.Map.(*ssa.MakeMap); ok && loop[mm.Block()] {
+						continue
+					}
+					fresh = false
+				case *ssa.Store:
+					if isReqCreds(x.Addr) {
+						if mm, ok := x.Val.(*ssa.MakeMap); !ok || !loop[mm.Block()] {
+							fresh = false
+						}
+					}
+				}
+			}
+		}
+		if in, ok := reqAlloc.(ssa.Instruction); ok && !loop[in.Block()] {
+			fresh = false
+		}
+		c.R.Check(fresh && nmu > 0, load.FuncName(fc)+": req.Credentials fresh per step", c.pos(run.Pos()), "the request and its credentials map are created inside the pipeline iteration", "the credentials map (or the request) outlives one pipeline iteration: a step is sent the credentials of earlier steps")
 	}
 
 	c.R.Rule("R4.3", "nothing dropped, order kept: conditions and non-fatal results are appended without skip and returned on success and fatal returns; the reconciler ranges over all of them", 6,
